@@ -1,8 +1,8 @@
 SPECIFICATION Spec
 CONSTANTS
-  Vals <- Sym2
+  Vals <- Sym3
   MinLen = 2
-  OnlyReversals = FALSE
+  OnlyReversals = TRUE
   MaxLen = 8
 INVARIANT FindTurnsAgree
 INVARIANT FourPointIsDefinition
